@@ -20,6 +20,7 @@ func scenWriters(e *Env, args []string, r *rand.Rand) {
 	dir := args[0]
 	m := argMap(args)
 	k, n := atoi(m["k"], 4), atoi(m["n"], 20)
+	rhold := uint16(atoi(m["rhold"], 3))
 	p := e.addPeer(1, PeerOpts{LocalAS: localAS, RemoteAS: remoteAS, Hold: 3, Passive: dir == "in", IdleHold: 50 * time.Millisecond})
 	mk := func(w, i int) []byte {
 		l := r.Intn(40)
@@ -51,7 +52,7 @@ func scenWriters(e *Env, args []string, r *rand.Rand) {
 		p.plugin.WriterPause = time.Duration(atoi(m["pause"], 0)) * time.Millisecond
 	}
 	e.serve()
-	c := p.bring(dir, "established", 3, remoteID)
+	c := p.bring(dir, "established", rhold, remoteID)
 	if c != nil {
 		if m["inside"] == "1" {
 			c.send(wire.Update([]byte{0, 0, 0, 0})) // triggers the handler, which writes
@@ -90,7 +91,7 @@ func scenWriters(e *Env, args []string, r *rand.Rand) {
 		}
 	}
 	e.close()
-	p.plugin.wg.Wait()
+	p.plugin.waitWriters(2 * time.Second)
 	p.plugin.mu.Lock()
 	w, wid := p.plugin.lastW, fmt.Sprintf("w%d", p.plugin.writerSeq)
 	p.plugin.mu.Unlock()
@@ -167,6 +168,7 @@ func scenHold(e *Env, args []string, r *rand.Rand) {
 		}
 	}
 	e.close()
+	p.plugin.waitWriters(2 * time.Second)
 }
 
 // ---------------------------------------------------------------- C07: collision
@@ -461,7 +463,11 @@ func scenReconnect(e *Env, args []string, r *rand.Rand) {
 	}
 	faults := strings.Split(args[0], "+")
 	p := e.addPeer(1, PeerOpts{LocalAS: localAS, RemoteAS: remoteAS, Hold: 90, IdleHold: ih, ConnectRetry: cr, Passive: passive,
-		NoListen: faults[0] == "refuse"})
+		NoListen: faults[0] == "refuse" || faults[0] == "stall"})
+	var endStall func()
+	if faults[0] == "stall" {
+		endStall = p.remote.stall() // peers only start at Serve: the stall is in place before the first dial
+	}
 	e.serve()
 	if passive {
 		// a passive peer never dials; an inbound session works, and after it ends the next one is admitted
@@ -491,9 +497,23 @@ func scenReconnect(e *Env, args []string, r *rand.Rand) {
 			}
 			time.Sleep(ih / 2)
 		case f == "stall":
-			// accept at TCP level but never answer the OPEN... corebgp's connect-retry does not apply once
-			// connected; instead stall the *connect* itself: nothing listens and SYNs are dropped is not
-			// possible on loopback, so this case is exercised through the dial schedule point (C10 family)
+			// connects hang (SYNs dropped): each expired connect-retry timer must abandon the pending attempt
+			// and start a new one
+			if endStall == nil {
+				p.remote.unlisten()
+				endStall = p.remote.stall()
+			}
+			from := p.mark
+			for k := 0; k < 4; k++ {
+				i := p.waitEv(from, cr*3+stepWait, "dial")
+				if i < 0 {
+					break
+				}
+				from = i + 1
+			}
+			e.tr.log(p.key, "stall-end")
+			endStall()
+			endStall = nil
 		default:
 			kind, state, _ := strings.Cut(f, "@")
 			if p.remote.lis == nil {
@@ -625,6 +645,34 @@ func scenAdmission(e *Env, args []string, r *rand.Rand) {
 	}
 	p1 := e.addPeer(1, PeerOpts{LocalAS: localAS, RemoteAS: remoteAS, Hold: 90, Passive: true, LocalAddr: lo})
 	p2 := e.addPeer(2, PeerOpts{LocalAS: localAS, RemoteAS: remoteAS, Hold: 90, Passive: true})
+	if strings.HasSuffix(kase, "prequeued") {
+		// two connections from the same peer are already in the accept queue when Serve starts
+		l, err := net.Listen("tcp", "127.0.0.1:0")
+		if err != nil {
+			panic(err)
+		}
+		e.lisAddr = l.Addr().String()
+		e.tr.log(p1.key, "probe", "known", p1.addr.String(), "127.0.0.1")
+		a := p1.remote.dial()
+		e.tr.log(p1.key, "probe", "busy", p1.addr.String(), "127.0.0.1")
+		b := p1.remote.dial()
+		e.lis = l
+		e.serveCh = make(chan error, 1)
+		e.tr.log("-", "api.call", "Serve")
+		go func() {
+			err := e.srv.Serve([]net.Listener{l})
+			e.tr.log("-", "api.ret", "Serve", errName(err))
+			e.serveCh <- err
+		}()
+		for _, c := range []*Conn{a, b} {
+			if c != nil {
+				c.waitMsgs(1, 150*time.Millisecond)
+			}
+		}
+		time.Sleep(50 * time.Millisecond)
+		e.close()
+		return
+	}
 	if strings.HasPrefix(kase, "wild") {
 		e.serveOn("0.0.0.0:0")
 	} else {
@@ -651,9 +699,12 @@ func scenAdmission(e *Env, args []string, r *rand.Rand) {
 			time.Sleep(20 * time.Millisecond)
 		}
 	case strings.HasSuffix(kase, "wrong-dst"):
-		// the peer has local address 127.0.0.1 configured; connect to another loopback address
-		c := probe(p1.addr.String(), "127.0.0.9", "wrongdst")
-		c.waitEnd(stepWait)
+		// the peer has local address 127.0.0.1 configured; connect to other loopback addresses, including
+		// ones whose text merely starts with the configured one
+		for _, dst := range []string{"127.0.0.9", "127.0.0.10", "127.0.0.117", "127.0.0.2"} {
+			c := probe(p1.addr.String(), dst, "wrongdst")
+			c.waitEnd(stepWait)
+		}
 	case strings.HasSuffix(kase, "second-inbound"):
 		a := probe(p1.addr.String(), "127.0.0.1", "known")
 		p1.waitEv(0, stepWait, "log.t", "in", "*", "openSent")
@@ -683,6 +734,86 @@ func scenAdmission(e *Env, args []string, r *rand.Rand) {
 	e.close()
 }
 
+// inbound-fin:<passive|active> — the remote closes an inbound connection right after corebgp's OPEN, before
+// sending its own: the inbound FSM must go away (a passive peer must not dial) and the next inbound
+// connection must be served
+func scenInboundFin(e *Env, args []string, r *rand.Rand) {
+	passive := args[0] == "passive"
+	p := e.addPeer(1, PeerOpts{LocalAS: localAS, RemoteAS: remoteAS, Hold: 90, IdleHold: 100 * time.Millisecond, ConnectRetry: 200 * time.Millisecond,
+		Passive: passive, NoListen: true})
+	e.serve()
+	c := p.bring("in", "openSent", 90, remoteID)
+	if c != nil {
+		c.drainClose()
+		time.Sleep(350 * time.Millisecond) // longer than connect-retry
+		p.mark = e.tr.len()
+		e.tr.log(p.key, "probe", "known", p.addr.String(), "127.0.0.1")
+		c2 := p.remote.dial()
+		if c2 != nil {
+			c2.waitMsgs(1, stepWait)
+		}
+	}
+	e.close()
+}
+
+// api-race:<delete-close|delete-delete|delete-add> — API calls racing with a slow teardown
+func scenAPIRace(e *Env, args []string, r *rand.Rand) {
+	p := e.addPeer(1, PeerOpts{LocalAS: localAS, RemoteAS: remoteAS, Hold: 90, IdleHold: 20 * time.Millisecond})
+	p.plugin.CloseDelay = 60 * time.Millisecond
+	e.serve()
+	c := p.bring("out", "established", 90, remoteID)
+	if c == nil {
+		e.close()
+		return
+	}
+	done := make(chan struct{}, 2)
+	go func() { p.delete(); done <- struct{}{} }()
+	time.Sleep(5 * time.Millisecond)
+	switch args[0] {
+	case "delete-close":
+		e.close()
+		<-done
+		return
+	case "delete-delete":
+		go func() { p.delete(); done <- struct{}{} }()
+		<-done
+		<-done
+	case "delete-add":
+		// re-adding the same peer while it is being deleted: either refused (still present) or accepted after
+		// the old one is gone — never two sessions at once
+		e.tr.log(p.key, "api.call", "AddPeer2")
+		err := e.srv.AddPeer(p.cfg, p.plugin, bgp.WithPort(p.port), bgp.WithIdleHoldTime(20*time.Millisecond))
+		e.tr.log(p.key, "api.ret", "AddPeer2", errName(err))
+		<-done
+		if err == nil {
+			p.mark = e.tr.len()
+			if c2 := p.remote.accept(stepWait); c2 != nil {
+				c2.waitMsgs(1, stepWait)
+			}
+		}
+	}
+	e.close()
+}
+
+// open-caps — the plugin keeps one capability slice and updates it in place; the outbound FSM reconnects
+// several times: every OPEN must carry what GetCapabilities returned for that connection
+func scenOpenCaps(e *Env, args []string, r *rand.Rand) {
+	p := e.addPeer(1, PeerOpts{LocalAS: localAS, RemoteAS: remoteAS, Hold: 90, IdleHold: 30 * time.Millisecond, ConnectRetry: 200 * time.Millisecond})
+	p.plugin.Caps = []bgp.Capability{{Code: 64, Value: []byte{0x02, 0x00, 0x70}}, {Code: 2, Value: nil}}
+	p.plugin.MutateCaps = args[0] == "mutate"
+	e.serve()
+	for k := 0; k < 4; k++ {
+		c := p.remote.accept(stepWait)
+		if c == nil {
+			break
+		}
+		c.waitMsgs(1, stepWait)
+		time.Sleep(2 * time.Millisecond)
+		c.drainClose()
+	}
+	e.close()
+}
+
 var _ = bgp.ErrServerClosed
 
 func init() {
@@ -696,6 +827,9 @@ func init() {
 	families["damping"] = scenDamping
 	families["damping-both"] = scenDampingBoth
 	families["admission"] = scenAdmission
+	families["inbound-fin"] = scenInboundFin
+	families["api-race"] = scenAPIRace
+	families["open-caps"] = scenOpenCaps
 
 	scenarioLists["C04"] = func(tier string, r *rand.Rand) []string {
 		var out []string
@@ -712,6 +846,9 @@ func init() {
 				}
 				// keepalives interleave: hold 3 s => a KEEPALIVE every second while writers write slowly
 				out = append(out, fmt.Sprintf("writers:%s:k=2:n=40:end=cease:inside=1:pause=60:ms=2500:i=%d", dir, rep))
+				// negotiated hold time 0 (no keepalive timer): writers and writes from inside callbacks must still work
+				out = append(out, fmt.Sprintf("writers:%s:k=2:n=20:end=cease:inside=1:rhold=0:ms=100:i=%d", dir, rep))
+				out = append(out, fmt.Sprintf("writers:%s:k=3:n=20:end=close:inside=0:rhold=0:ms=100:i=%d", dir, rep))
 			}
 		}
 		return out
@@ -810,11 +947,13 @@ func init() {
 			for _, st := range []string{"openSent", "openConfirm", "established"} {
 				out = append(out, fmt.Sprintf("shutdown:%s:second-inbound:st=%s", api, st))
 			}
+			out = append(out, "admission:specific-prequeued:i="+api)
 		}
 		return out
 	}
 	scenarioLists["C11"] = func(tier string, r *rand.Rand) []string {
-		out := []string{"reconnect:refuse:ih=200:cr=500", "reconnect:refuse:ih=50:cr=500", "reconnect:x:passive", "inbound-resume"}
+		out := []string{"reconnect:refuse:ih=200:cr=500", "reconnect:refuse:ih=50:cr=500", "reconnect:x:passive", "inbound-resume",
+			"reconnect:stall:ih=100:cr=300", "inbound-fin:passive", "inbound-fin:active"}
 		if tier == "thorough" {
 			out = append(out, "reconnect:refuse:ih=1000:cr=2000")
 		}
@@ -873,15 +1012,34 @@ func init() {
 			}
 			out = append(out, fmt.Sprintf("admission:%s-local-known", l), fmt.Sprintf("admission:%s-local-wrong-dst", l))
 		}
+		for i := 0; i < 6; i++ {
+			out = append(out, fmt.Sprintf("admission:specific-prequeued:i=%d", i))
+		}
 		return out
 	}
 	// C01: the union of the families in which sessions come and go
 	scenarioLists["C01"] = func(tier string, r *rand.Rand) []string {
 		var out []string
-		for _, p := range []string{"C07", "C09", "C10", "C11"} {
+		for _, p := range []string{"C07", "C09", "C10", "C11", "C20"} {
 			out = append(out, scenarioLists[p](tier, r)...)
 		}
 		return out
+	}
+	scenarioLists["C20"] = func(tier string, r *rand.Rand) []string {
+		out := []string{}
+		n := 2
+		if tier == "thorough" {
+			n = 20
+		}
+		for i := 0; i < n; i++ {
+			for _, k := range []string{"delete-close", "delete-delete", "delete-add"} {
+				out = append(out, fmt.Sprintf("api-race:%s:i=%d", k, i))
+			}
+		}
+		return out
+	}
+	scenarioLists["C14"] = func(tier string, r *rand.Rand) []string {
+		return []string{"open-caps:fresh", "open-caps:mutate", "open-caps:mutate:i=1"}
 	}
 	scenarioLists["C05"] = func(tier string, r *rand.Rand) []string {
 		var out []string
